@@ -45,10 +45,8 @@ class TargetFitness(SearchBudget):
         if best is None:
             return False
         comps = best.get_fitness(tracker.get_problem()).fitness_components
-        if isinstance(self.value, float):
-            return abs(comps[0] - self.value) < 0.0001
-        else:
-            return all(abs(c - self.value) < 0.001 for c in comps)
+        # the best fitness is at the target when all of it is (one component for a single-objective problem)
+        return all(abs(c - self.value) < 0.0001 for c in comps)
 
 
 class TargetMultiFitness(SearchBudget):
